@@ -211,56 +211,3 @@ fn c05_late_joiner_two_pending_sets() {
     core::mem::forget((rows, buffered, server));
 }
 
-/// `get_bytes` for `first` and then for `second`, as `send_all` does for two clients with these
-/// update ticks: each client gets `postcard(its tick) ++ payload`.
-fn stamp_case(first: u32, second: u32) {
-    let mut message = raw_event(0x41);
-    let a = message.get_bytes(RepliconTick::new(first)).unwrap();
-    let b = message.get_bytes(RepliconTick::new(second)).unwrap();
-    for (bytes, tick) in [(&a, first), (&b, second)] {
-        // reference varint encoding of the tick
-        let mut expect = [0u8; 6];
-        let mut n = 0;
-        let mut v = tick;
-        loop {
-            let byte = (v & 0x7f) as u8;
-            v >>= 7;
-            if v == 0 {
-                expect[n] = byte;
-                n += 1;
-                break;
-            }
-            expect[n] = byte | 0x80;
-            n += 1;
-        }
-        expect[n] = 0x41;
-        assert!(bytes.len() == n + 1);
-        let mut i = 0;
-        while i <= n {
-            assert!(bytes[i] == expect[i]);
-            i += 1;
-        }
-    }
-    core::mem::forget((message, a, b));
-}
-
-// HARNESS: c04_stamp_per_client
-// PROPS: C04 C05
-// TIER: quick
-// TIMEOUT: 900
-// DRIVES: SerializedMessage::get_bytes, postcard_utils::to_extend_mut
-// BOUNDS: one buffered event resolved for two clients in sequence with update-tick pairs (3,200), (200,3), (3,3), (0xFFFFFFFF,0), (0,0x4000): concrete pairs (a symbolic tick makes the stamp length symbolic, P23), reference varint encoder; unwind 8
-#[kani::proof]
-#[kani::unwind(8)]
-#[kani::stub(<bytes::Bytes as core::ops::Drop>::drop, noop_bytes_drop)]
-#[kani::stub(<bytes::Bytes as core::clone::Clone>::clone, bytes_clone)]
-#[kani::stub(log::max_level, log_off)]
-fn c04_stamp_per_client() {
-    stamp_case(3, 200);
-    stamp_case(200, 3);
-    stamp_case(3, 3);
-    stamp_case(0xFFFF_FFFF, 0);
-    stamp_case(0, 0x4000);
-    kani::cover!(true, "all pairs executed");
-    kani::cover!(RepliconTick::POSTCARD_MAX_SIZE == 5, "tick padding as documented");
-}
